@@ -617,6 +617,29 @@ def check_edit_indices(ctx):
             ctx.violation("edit_map_indices", {"I": I, "impl": got, "spec": dict(img)})
         else:
             ctx.trace_ok()
+    if ctx.tier != "quick":
+        # the same lemma for N = 12 symbolically (Apalache, all 4095 subsets in one SMT query): evidence about
+        # the model only - the binding to the code is the replay above
+        import shutil, subprocess, tempfile, time
+        exe = shutil.which("apalache-mc")
+        if exe is None:
+            ctx.uncovered("apalache-mc not found: EditIndices lemma for N = 12 not discharged symbolically")
+            return
+        out = tempfile.mkdtemp(prefix="apa_")
+        t0 = time.time()
+        try:
+            pr = subprocess.run([exe, "check", "--init=Init", "--next=Next", "--inv=All", "--length=0", "--out-dir=" + out,
+                                 os.path.join(harness.VERIF, "spec", "EditIndicesApa.tla")], capture_output=True, text=True, timeout=900)
+            verdict = "ok" if "EXITCODE: OK" in pr.stdout else "failed"
+        except subprocess.TimeoutExpired:
+            verdict = "timeout"
+        finally:
+            shutil.rmtree(out, ignore_errors=True)
+        ctx.notes["apalache_EditIndices_N12"] = {"verdict": verdict, "wall_s": round(time.time() - t0, 1)}
+        if verdict == "failed":
+            raise harness.MachineryError("Apalache rejects the EditIndices lemma at N = 12:\n" + pr.stdout[-1500:])
+        if verdict == "timeout":
+            ctx.uncovered("Apalache timed out on the EditIndices lemma at N = 12")
 
 
 # ---------------------------------------------------------------------------------------------
